@@ -203,6 +203,8 @@ Section Step.
     - (* SetResetVariable *) grd H G. inversion H; subst. apply gc_inv. apply (set_link_inv s r0 set_rvar); auto.
     - (* SetResetTestVariable *) grd H G. inversion H; subst. apply gc_inv. apply (set_link_inv s r0 set_rtest); auto.
     - (* Release *) grd H G. inversion H; subst. apply gc_inv. apply inv_handles. assumption.
+    - (* Query *) grd H G. destruct (query_eval true seq s q) as [[b|[x|]| |]|]; inversion H; subst; try assumption.
+      apply gc_inv. apply add_handle_inv. assumption.
   Qed.
 
   (** histories *)
